@@ -4,7 +4,7 @@ import Mathlib.Tactic.FieldSimp
 /-! C06, vector arithmetic of the payload edits: `TreeNode.add_data_point(_list)` keeps a clone's own
 `p`- and `r`-equation (both sides are multiplied by the data point's grid), `remove_data_point` keeps
 the `p`-equation when the divided values are non-zero, a fresh `TreeNode` satisfies the `p`-equation. -/
-namespace PhyModel.Store
+namespace PhyModel.Store.C06
 open PhyModel
 
 theorem getQ_pdiv (G : ℕ) (a b : Vec) (k : ℕ) (hk : k < G) :
@@ -148,4 +148,4 @@ theorem recRemove_spec (dt : Data) (n n' : NodeRec) (dp : ℕ) (h : recRemove dt
     rw [hp, divData_p dt hNZ n.dps dp hdp hmem]
   · simp at h
 
-end PhyModel.Store
+end PhyModel.Store.C06
